@@ -92,7 +92,8 @@ class Gen(object):
         return ''.join(r.choice(list('mkgs()^*/-.0123 ') + NONASCII) for _ in range(r.randint(0, 8)))
 
 
-FIXED = ['', ' ', 'nan', 'inf', 'Infinity', 'NaN', '2 nan', 'm^nan', 'dam', 'dag', 'daJ', 'L', 'mL', 'kg m/s^2', 'J/(mol K)',
+FIXED = ['m^2.000004', '(5 m^0.33333)^3', 'kg^12.0001', 'm^1.00001', 's^-3.00002', 'K^0.99999', 'mol^2.00001', 'J^5.00004', 'm^0.000004 s', '(2 m^0.499999)^2',
+         '', ' ', 'nan', 'inf', 'Infinity', 'NaN', '2 nan', 'm^nan', 'dam', 'dag', 'daJ', 'L', 'mL', 'kg m/s^2', 'J/(mol K)',
          '8.314472 J/(mol K)', '6.626068*10^-34 J s', '1/(6.02214179*10^23) mol', '1/0', 'm/0', '0^-1', 'm^m', '2^m', '(m', 'm)',
          '()', '(())', 'm^', '^2', 'm^(2', 'm^(2))', 'm^()', '1..2', '-', '--1', '-m', '- 1', 'm*', '*m', 'm//s', 'm**2',
          'm^2^3', '2 3', '2(3)', '(2)(3)', 'kkg', 'mm', 'cd', 'mcd', 'min', 'hp', 'ft lbf', 'psi', 'Pa', 'P', 'PPa', 'T', 'Tt',
